@@ -31,7 +31,10 @@ struct Res
     Res& operator=(const Res&) = default;
 #endif
 };
-struct ItemF { NV operator()(char) const { return NV(tv::Fresh{}, false, 0); } };
+// the k-th element functor call of a parse may throw (a functor reporting a semantic error): the parse ends with that exception
+inline thread_local long g_item_calls = 0, g_item_throw_at = -1;
+struct item_failure : std::runtime_error { item_failure() : std::runtime_error("element functor failure injected by the harness") {} };
+struct ItemF { NV operator()(char) const { if (g_item_calls++ == g_item_throw_at) throw item_failure(); return NV(tv::Fresh{}, false, 0); } };
 struct One { List operator()(NV&& v) const { List l; l.reserve(2); l.emplace_back(std::move(v)); return l; } };
 struct Join { Res operator()(List&& a, char, List&& b) const { return Res{std::move(a), std::move(b)}; } };
 inline const auto& parser_h()
@@ -141,8 +144,25 @@ struct P_C14h
         {
             const std::string& text = c.inputs[k];
             hl::Want w = hl::eval_h(text);
-            tv::reg().reset();
-            vj::Value d = vj::Value::object(); d.set("input_index", (unsigned long long)k); d.set("input", text.size() > 400 ? text.substr(0, 400) + "..." : text); d.set("input_bytes", (unsigned long long)text.size());
+            vj::Value d = vj::Value::object(); d.set("input_index", (unsigned long long)k);
+            // first, for some texts: the same parse with an element functor that throws half-way: every value created so far must be destroyed when the
+            // exception leaves parse(), and nothing of it may be left for the parse that follows
+            if (w.ok && w.nl + w.nr >= 2 && (k + text.size()) % 3 == 0)
+            {
+                tv::reg().reset(); hl::g_item_calls = 0; hl::g_item_throw_at = long((w.nl + w.nr) / 2);
+                bool thrown = false; std::ostringstream os0;
+                try { auto r0 = hl::parser_h().parse(ctpg::parse_options{}, ctpg::buffers::string_buffer(std::string(text)), os0); (void)r0; } catch (const hl::item_failure&) { thrown = true; } catch (const std::exception& e) { hl::g_item_throw_at = -1; d.set("exception", e.what()); d.set("input", text.substr(0, 300)); return Verdict::fail("parse threw something other than the functor's exception", d); }
+                hl::g_item_throw_at = -1;
+                st.sub_evaluations += st.counting ? 1 : 0;
+                d.set("input", text.size() > 400 ? text.substr(0, 400) + "..." : text);
+                if (!thrown) return Verdict::fail("an exception thrown by a functor did not leave parse()", d);
+                const tv::Registry& rg0 = tv::reg();
+                d.set("constructions", (long long)rg0.constructions); d.set("destructions", (long long)rg0.destructions); d.set("still_alive", (unsigned long long)rg0.live.size());
+                if (rg0.double_destroy || rg0.destroy_unknown) return Verdict::fail("a value was destroyed twice while an exception left parse()", d);
+                if (rg0.constructions != rg0.destructions || !rg0.live.empty()) return Verdict::fail("values created before a functor threw were not destroyed when the exception left parse()", d);
+                st.label("parse-ended-by-functor-exception");
+            }
+            tv::reg().reset(); hl::g_item_calls = 0; d.set("input", text.size() > 400 ? text.substr(0, 400) + "..." : text); d.set("input_bytes", (unsigned long long)text.size());
             bool threw = false; std::string exc; bool has = false; std::ostringstream os;
             {
                 std::optional<hl::Res> got;
